@@ -5336,10 +5336,10 @@ class TLSConnection(TLSRecordLayer):
                 elif curve == "BRAINPOOLP384r1":
                     sigAlgs.append(
                         SignatureScheme.ecdsa_brainpoolP384r1tls13_sha384)
-                else:
-                    assert curve == "BRAINPOOLP512r1"
+                elif curve == "BRAINPOOLP512r1":
                     sigAlgs.append(
                         SignatureScheme.ecdsa_brainpoolP512r1tls13_sha512)
+                # (no TLS 1.3 signature scheme for the other brainpool curves)
             else:
                 for hashName in settings.ecdsaSigHashes:
                     # only SHA256, SHA384 and SHA512 are allowed in TLS 1.3
@@ -5349,7 +5349,11 @@ class TLSConnection(TLSRecordLayer):
                     # in TLS 1.3 ECDSA key curve is bound to hash
                     if publicKey and version > (3, 3):
                         curve = publicKey.curve_name
-                        matching_hash = curve_name_to_hash_name(curve)
+                        try:
+                            matching_hash = curve_name_to_hash_name(curve)
+                        except TLSIllegalParameterException:
+                            # no TLS 1.3 signature scheme for this curve
+                            break
                         if hashName != matching_hash:
                             continue
 
